@@ -65,7 +65,7 @@ Proof.
     destruct Hom' as [->|[[-> ->]|[-> ->]]]; [exact Homj| |].
     - split; intro X; [inversion X; lia|apply Homj in X; discriminate X].
     - split; intro X; [discriminate X|apply Homj in X; inversion X; lia]. }
-  destruct stp; try discriminate E.
+  destruct stp; try discriminate E; try (cbn in Hpk; discriminate Hpk).
   - (* Fresh -> Ready *)
     inversion E; subst s'; clear E.
     unfold Rex. exists p0, st0, r0, c0, l0, cu0, p1, st1, r1, c1, l1, cu1, om. cbn. unfold upd. cbn.
@@ -180,6 +180,5 @@ Proof.
       all: do 4 eexists; cbn; unfold upd; cbn; rewrite ?Nat.eqb_refl; cbn; rewrite ?Hth; cbn; sp; try reflexivity; auto.
       all: try (intros _; reflexivity).
       all: split; intro X; [apply Hom in X; discriminate X|discriminate X].
-  - cbn in Hpk. discriminate Hpk.
 Qed.
 End Pr.
